@@ -366,6 +366,14 @@ def check_neighbours(prog, rep, m):
             lens = [a for a in ats if isinstance(a, App) and a.name in ('len', 'shape') and (a.args[0] if a.name == 'shape' else None) != lk]
             rls = [a for a in ats if isinstance(a, App) and a.name in ('read', 'cell?') and a.args[0] != lk and len(a.args) >= 2 and
                    isinstance(a.args[1], Rat) and Sym(L2.var) in walk_atoms(a.args[1])]
+            if not cnt and len(mine) == 1 and isinstance(mine[0].value, Rat) and not mine[0].guards:
+                # the dense counter advanced in step with the loop (closed form counter0 + (i - lo)): the counter of this
+                # iteration is the stored value itself, one more after it
+                v_ = mine[0].value
+                base = v_ - (Rat.sym(L2.var) - L2.lo) * (L2.step if isinstance(L2.step, Rat) else Rat.const(1))
+                if Sym(L2.var) not in walk_atoms(base) and len(list(base.atoms())) == 1 and base == Rat.atom(next(iter(base.atoms()))):
+                    per[id(L2)] = (L2, mine, (v_, v_ + Rat.const(1)), ('closed', next(iter(base.atoms()))), lens, rls)
+                    continue
             if len(cnt) != 1 or len(rls) > 1 or not all(tuple(st.idx) == (Rat.sym(L2.var),) or
                                                          (len(st.idx) == 1 and Sym(L2.var) in walk_atoms(st.idx[0])) for st in mine):
                 shape_ok = False
@@ -377,7 +385,8 @@ def check_neighbours(prog, rep, m):
                 for i_, n_, t_ in ((3, 10, 0), (3, 10, 2), (12, 10, 7)):
                     hit = []
                     for L2, mine, (cphi, cend), cname, lens, rls in per.values():
-                        catom = _single(cphi) if _single(cphi) is not None else next(iter(cphi.atoms()))
+                        closed = isinstance(cname, tuple) and cname[0] == 'closed'
+                        catom = cname[1] if closed else (_single(cphi) if _single(cphi) is not None else next(iter(cphi.atoms())))
                         env = {catom: Fr(40), '__read__': lambda key_, idx: 100 + int(idx[0])}
                         for a in lens:
                             env[a] = Fr(n_)
@@ -394,6 +403,9 @@ def check_neighbours(prog, rep, m):
                             e2 = dict(env)
                             e2[Sym(L2.var)] = Fr(kk)
                             if evaluate(idx0, e2) == i_:
+                                if closed:
+                                    # the counter is 40 at this very iteration
+                                    e2[catom] = Fr(40) - (Fr(kk) - lo_) * (evaluate(L2.step, e2) if isinstance(L2.step, Rat) else 1)
                                 if rls:
                                     e2[rls[0]] = Fr(t_)
                                 vals = [evaluate(st.value, e2) for st in mine if all(eval_cond_full(g, e2) for g in st.guards)]
@@ -403,8 +415,9 @@ def check_neighbours(prog, rep, m):
                     res.append(len(hit) == 1 and hit[0][0] == [want] and hit[0][1] == (41 if target == 0 else 40))
                 # the dense counter runs through all the loops: 0 before the first, carried on into the next
                 order = sorted(per.values(), key=lambda x: x[0].node.lineno)
-                thread = order[0][0].pre.get(order[0][3]) == Rat.const(0) and all(
-                    isinstance(x[0].pre.get(x[3]), Rat) and not x[0].pre.get(x[3]).is_const() for x in order[1:])
+                def pre_of(x):
+                    return Rat.atom(x[3][1]) if isinstance(x[3], tuple) else x[0].pre.get(x[3])
+                thread = pre_of(order[0]) == Rat.const(0) and all(isinstance(pre_of(x), Rat) and not pre_of(x).is_const() for x in order[1:])
                 oklk = all(res) and thread
                 whylk = '(value, counter) right for (unmerged, merged into 2, beyond the table): %s; counter carried through %d loop(s): %s' % (
                     res, len(order), thread)
